@@ -1135,7 +1135,10 @@ class RunGen:
         cells = []
         for at in LEN_CLASSES:
             cells.append({"f": "truncate", "at": at})
-        for at in ([["abs", 0], ["abs", 32], ["abs", 4096], ["frac", 0.5], ["end", -4096], ["end", -1]]):
+        for at in LEN_CLASSES:
+            # a zero-filled tail from every header boundary and length class
+            # (from byte 20 on: checksum and contents are zero -- and the checksum
+            # of zeros is zero)
             cells.append({"f": "zero_tail", "at": at})
         for field, (a, z) in HEADER.items():
             for off in range(a, z):
